@@ -56,9 +56,7 @@ func walkerPart(run *report.Run, tier string, prop string) {
 		if r.Case.Failing > 0 || r.Case.CancelAt >= 0 || r.Case.RegDelay != "none" {
 			run.Nontrivial(r.Case.Shape + "|" + r.OrderSig)
 		}
-		if r.Case.ID < 2 {
-			run.Sample(map[string]any{"walker_case": r.Case, "events": r.Events, "order_sig": r.OrderSig})
-		}
+		run.Sample(map[string]any{"walker_case": r.Case, "events": r.Events, "order_sig": r.OrderSig})
 		for _, v := range r.Violations {
 			mine := false
 			switch prop {
